@@ -157,6 +157,14 @@ def check(case) -> Result:
         run_recipe(warm, parse=False)
     out = run_recipe(case)
     if out.build_error:
+        if out.build_error.split(":")[0] in ("ValueError", "ValidationError"):
+            # refused when the document is constructed: fine for non-contiguous keys, a violation for contiguous ones
+            res.checks = 1
+            if all_prefix_ok:
+                res.fail("rejection", "contiguous_data_refused_at_construction" + ("/null_key" if has_null else ""), f"keys {full[:8]}: {out.build_error[:160]}")
+            res.labels = [f"levels={len(gb)}", "refused_at_construction"]
+            res.nontrivial = True
+            return res
         res.harness_error = "recipe does not build: " + out.build_error
         return res
     res.checks = 1
